@@ -66,3 +66,41 @@ Section Sampled.
     apply walk_root_nodup, uniq_graph_build.
   Qed.
 End Sampled.
+
+Require Import UV.C15.ProofsBound.
+
+(* ---- the sampled count without 64-bit caveat ---- *)
+Lemma sub64_exact : forall a b, b <= a -> a < W64 -> sub64 a b = a - b.
+Proof. intros. apply sub64_small; assumption. Qed.
+
+Theorem flame_sampled_exact : forall sample rootname tids s,
+  wf_stream s = true -> NoDup tids -> (forall r, In r s -> In (fst r) tids) -> sample <> 0 ->
+  (forall p, time_path p (ref_calls tids s) < W64) ->
+  forall p c, In (p, c) (flame_rows sample (graph_build sample rootname tids s)) <->
+    (count_path p (ref_entries [] s) <> 0
+     /\ c = (time_path p (ref_calls tids s) - sampled_child_time sample p (ref_calls tids s)) / sample
+     /\ c <> 0).
+Proof.
+  intros sample rootname tids s Hwf ND Hcov Hs Hsmall p c.
+  rewrite (flame_sampled_lines sample rootname tids s Hwf ND Hcov Hs p c).
+  assert (E : count_path p (ref_entries [] s) <> 0 ->
+              sub64 (time_path p (ref_calls tids s)) (sampled_child_time sample p (ref_calls tids s))
+              = time_path p (ref_calls tids s) - sampled_child_time sample p (ref_calls tids s)).
+  { intros Hc. apply sub64_exact; [|apply Hsmall].
+    assert (Hne : p <> []) by (apply (ref_entries_nonempty s [] p), count_path_in, Hc).
+    apply N.le_trans with (child_time_of p (ref_calls tids s)); [apply sampled_le_child|].
+    apply child_le_time; assumption. }
+  split; intros [Hc [Hv Hz]]; (split; [exact Hc|]); (split; [|exact Hz]); rewrite Hv; [apply f_equal2|symmetry; apply f_equal2]; auto.
+Qed.
+
+(* the total of the samples can EXCEED the run time: main runs 1.2 us and calls f twice for 0.6 us; at 1 us per
+   sample the flame graph shows one sample for main (nothing was charged to the two short calls) and one for
+   main;f (their durations are added up before the division) *)
+Definition overcount_witness : stream :=
+  [(100, Ent [109] 1000); (100, Ent [102] 1000); (100, Ext [102] 1600);
+   (100, Ent [102] 1600); (100, Ext [102] 2200); (100, Ext [109] 2200)].
+Theorem flame_total_bound_refuted :
+  wf_stream overcount_witness = true
+  /\ flame_rows 1000 (graph_build 1000 [] [100] overcount_witness) = [([[109]], 1); ([[109]; [102]], 1)]
+  /\ time_path [[109]] (ref_calls [100] overcount_witness) = 1200.
+Proof. vm_compute. repeat split; reflexivity. Qed.
